@@ -715,3 +715,22 @@ func (it *Interp) stdlib(fr *Frame, x *ssa.Call, fn *ssa.Function, args []Value)
 }
 
 var _ = token.NoPos
+
+// SliceContent returns the byte terms of a slice value (up to its maximal length) and its length term.
+func (it *Interp) SliceContent(v Value) ([]*Term, *Term, bool) {
+	sv, ok := it.asSlice(v)
+	if !ok {
+		return nil, nil, false
+	}
+	ln := it.ApplyTerm(sv.Len)
+	_, hi := ln.Bounds()
+	var bs []*Term
+	for i := 0; i < int(hi.Int64()) && sv.Lo+i < len(sv.Arr.Kids); i++ {
+		b, ok := asTerm(it.loadValue(sv.Arr.Kids[sv.Lo+i]))
+		if !ok {
+			return nil, nil, false
+		}
+		bs = append(bs, it.ApplyTerm(b))
+	}
+	return bs, ln, true
+}
